@@ -39,10 +39,11 @@ const (
 	opClose
 	opSendDone
 	opLock
+	opWait
 )
 
 func (k opKind) String() string {
-	return [...]string{"start", "yield", "send", "recv", "select", "close", "senddone", "lock"}[k]
+	return [...]string{"start", "yield", "send", "recv", "select", "close", "senddone", "lock", "wgwait"}[k]
 }
 
 // Case describes one communication clause of a select.
@@ -94,6 +95,7 @@ type Exec struct {
 	events  chan event
 	closed  map[uintptr]bool
 	held    map[uintptr]*thread
+	wgs     map[uintptr]int
 	chanIDs map[uintptr]int
 
 	prefix   []int
@@ -305,6 +307,35 @@ func Unlock(mu any) {
 	}
 }
 
+// WgAdd / WgDone / WgWait model a sync.WaitGroup: they must be called immediately before the real
+// Add / Done / Wait.  Wait is enabled only when the modelled counter is zero, so the real Wait
+// never blocks.
+func WgAdd(wg any, n int) {
+	if x := active.Load(); x != nil && x.self() != nil {
+		p := reflect.ValueOf(wg).Pointer()
+		x.mu.Lock()
+		x.wgs[p] += n
+		x.mu.Unlock()
+	}
+}
+
+func WgDone(wg any) {
+	if x := active.Load(); x != nil {
+		if x.yield(op{kind: opYield, label: "wg.Done"}) != -2 {
+			p := reflect.ValueOf(wg).Pointer()
+			x.mu.Lock()
+			x.wgs[p]--
+			x.mu.Unlock()
+		}
+	}
+}
+
+func WgWait(wg any) {
+	if x := active.Load(); x != nil {
+		x.yield(op{kind: opWait, lock: reflect.ValueOf(wg).Pointer()})
+	}
+}
+
 // Select decides which clause of a select runs: index of the case, -1 for default, -2 when no
 // exploration is active (run the original select).
 func Select(hasDefault bool, cases ...Case) int {
@@ -384,6 +415,8 @@ func (x *Exec) enabled(t *thread) bool {
 		return t.op.hasDefault || len(x.readyCases(t)) > 0
 	case opLock:
 		return x.held[t.op.lock] == nil
+	case opWait:
+		return x.wgs[t.op.lock] <= 0
 	}
 	return false
 }
@@ -393,7 +426,7 @@ func (x *Exec) describe(t *thread) string {
 	if t.op.label != "" {
 		s += "(" + t.op.label + ")"
 	}
-	if t.op.kind == opLock {
+	if t.op.kind == opLock || t.op.kind == opWait {
 		id, ok := x.chanIDs[t.op.lock]
 		if !ok {
 			id = len(x.chanIDs)
@@ -477,7 +510,7 @@ func (x *Exec) unbufferedOpen(c Case) bool {
 
 // run executes body as thread 0 under the scheduler, following the choice prefix.
 func run(prefix []int, expect []string, maxSteps int, body func()) *Exec {
-	x := &Exec{events: make(chan event, 256), closed: map[uintptr]bool{}, held: map[uintptr]*thread{}, chanIDs: map[uintptr]int{}, byGoid: map[int64]*thread{},
+	x := &Exec{events: make(chan event, 256), closed: map[uintptr]bool{}, held: map[uintptr]*thread{}, wgs: map[uintptr]int{}, chanIDs: map[uintptr]int{}, byGoid: map[int64]*thread{},
 		prefix: prefix, expect: expect, maxSteps: maxSteps}
 	if !active.CompareAndSwap(nil, x) {
 		panic("vsched: nested exploration")
